@@ -201,14 +201,18 @@ def build(work, tier):
     import iq
     kits = [kit]
     import ext
-    for fn in (iq.payload_proofs, iq.header_proofs, iq.item_proofs, ext.jmi_proofs, ext.error_proofs):
+    for fn in (iq.payload_proofs, iq.header_proofs, iq.item_proofs, ext.jmi_proofs, ext.pt_proofs, ext.content_proofs, ext.error_proofs):
         k, ps = fn('C01', work, mk_proof, 'roundtrip')
-        kits.append(k)
+        if k is not None:
+            kits.append(k)
         proofs += ps
     if tier != 'thorough':
         # the finding-restricted runs of the two largest composites only repeat what the member codec's own run reports
         proofs = [p for p in proofs if not (getattr(p, 'finding', None) and p.id.split('_roundtrip')[0] in HEAVY)]
-    text_all = open(os.path.join(QT, 'xml.h')).read() + open(os.path.join(QT, 'conv.h')).read() + open(os.path.join(QT, 'opaque.h')).read() + codec.MODEL_GLUE + iq.TZO_MODEL + iq.HDR_STUBS + iq.presence.STUBS + iq.ITEM_MODEL + ext.JMI_STUBS
+        # the payload loop of QXmppJingleIq::Content::parse (bounded stand-in, 6-8 minutes of solver time on its own) runs in the
+        # thorough tier only: the quick tier must stay well inside its proofs' time limits on a slower machine
+        proofs = [p for p in proofs if p.id != 'QXmppJingleIqContent_parse_payload_loop']
+    text_all = open(os.path.join(QT, 'xml.h')).read() + open(os.path.join(QT, 'conv.h')).read() + open(os.path.join(QT, 'opaque.h')).read() + codec.MODEL_GLUE + iq.TZO_MODEL + iq.HDR_STUBS + iq.presence.STUBS + iq.ITEM_MODEL + ext.JMI_STUBS + ext.PT_MODEL + ext.CT_STUBS
     npad = sum(t.count('xw_pad(') for k in kits for t in k.texts.values())
     functions, seen = [], set()
     for k in kits:
